@@ -144,14 +144,15 @@ def _gen_streams(rng, tier, variant):
         for cut in cuts:
             r = rng.choice(rsizes)
             frag = [] if rng.random() < 0.4 else [rng.randint(1, 9) for _ in range(rng.randint(1, 4))]
-            yield {'kind': kind, 'T': T[:cut].hex(), 'k': k, 'r': r, 'frag': frag}
+            # the progress display is on for one case in five (and for every empty / header-only input of a stream)
+            yield {'kind': kind, 'T': T[:cut].hex(), 'k': k, 'r': r, 'frag': frag,
+                   'prog': rng.random() < 0.2 or (cut <= 6 and rng.random() < 0.5)}
     for _ in range(60 if tier == 'quick' else 600):
         ln = rng.randint(0, 40)
         yield {'kind': kind, 'T': bytes(rng.getrandbits(8) for _ in range(ln)).hex(), 'k': rng.choice([0, 2]),
-               'r': rng.choice(rsizes), 'frag': []}
+               'r': rng.choice(rsizes), 'frag': [], 'prog': rng.random() < 0.3}
     if tier == 'thorough':
         # beyond the 20 MB buffer-trim threshold (twice)
-        big = b''.join(make_packet(rng, dlen=65536) for _ in range(650))
         yield {'kind': kind, 'T': None, 'big': 650, 'k': 0, 'r': 1 << 20 if kind != 'bytes' else None, 'frag': []}
 
 
@@ -179,7 +180,7 @@ def _build_stream(r):
         else:
             T = bytes.fromhex(r['T'])
         a = {'binary_data': build_source(r['kind'], T, r['frag']), 'skip_header_bytes': r['k'],
-             'show_progress': False}
+             'show_progress': bool(r.get('prog', False))}
         a['buffer_read_size_bytes'] = r['r']
         return a
     return {'make': make, 'cap': 2000}
@@ -295,6 +296,18 @@ CONTRACTS = [
         native={'gen': _gen_create, 'build': _build_create},
     ),
     # ----------------------------------------------------------------------------------------------------------
+    # the progress display of the framer (show_progress=True): must never let an exception escape (C10), whatever the
+    # byte / packet counts and whether or not the total is known (a socket has none; an empty source has total 0)
+    Contract(
+        target='packets._print_progress',
+        props=['C10', 'C02', 'C19', 'C01'],
+        params={'current_bytes': 'int', 'total_bytes': ('opt', 'int'), 'current_packets': 'int', 'start_time_ns': 'int'},
+        returns='none',
+        requires=['current_bytes >= 0', 'current_packets >= 0',
+                  'is_none(total_bytes) or (0 <= total_bytes and current_bytes <= total_bytes)'],
+        ensures={}, raises={}, modifies=[],
+    ),
+    # ----------------------------------------------------------------------------------------------------------
     # the framer: one contract, verified once per source kind (S10); E1 is the assumed contract on the readers
     Contract(
         target='packets.ccsds_generator',
@@ -312,7 +325,7 @@ CONTRACTS = [
             'bytes': {'params': {'binary_data': 'bytes'},
                       'ghost_defs': {'T': 'binary_data', 'Rr': 'len(binary_data)'}},
         },
-        requires=['skip_header_bytes >= 0', 'not show_progress'],
+        requires=['skip_header_bytes >= 0'],
         hints=['fb_zero(T, k)'],
         loops={
             ('', 0): LoopSpec(
